@@ -24,7 +24,7 @@ ExpSvcName(rsvcs, mode) == IF mode = "last" THEN rsvcs[Len(rsvcs)].name ELSE IF 
 
 FieldAttr(df, rf, pk) == IF df.num # rf.num THEN "number" ELSE IF df.name # rf.name THEN "name" ELSE IF df.jn # rf.jn THEN "json-name"
                      ELSE IF df.card # rf.card THEN "cardinality" ELSE IF df.kind # rf.kind THEN "kind" ELSE IF df.kkind # rf.kkind THEN "key-kind"
-                     ELSE IF pk /\ df.packed # rf.packed THEN "packedness:declared-" \o (IF rf.packed THEN "packed-" ELSE "unpacked-") \o (IF rf.kind \in {"string", "bytes", "message"} THEN rf.kind ELSE "scalar") ELSE IF (rf.mt = "") # (df.node = 0) THEN "message-type" ELSE ""
+                     ELSE IF pk /\ df.packed # rf.packed THEN "packedness:declared-" \o (IF rf.packed THEN "packed-" ELSE "unpacked-") \o (IF rf.kind \in {"string", "bytes", "message"} THEN rf.kind ELSE "scalar") ELSE IF (rf.mt = "") # (df.node = 0) THEN "message-type" ELSE IF ~df.acc THEN "message-accessors-disagree" ELSE ""
 \* first disagreement of descriptor node dn with message type rm ("" = none)
 NodeWhy(dn, rm, pk) ==
   IF dn.count # Len(rm.fields) THEN "field-count"
